@@ -33,27 +33,82 @@ def build(reg):
                   "result == join(b' ', line) + %s + hdrs(%s, %s, len(%s)) + %s + (b'' if isnone(body) else body)" % (CRLF, K2, M2, K2, CRLF)),
                  ('content-length-untouched',
                   "headers.has(b'Content-Length') == old(headers).has(b'Content-Length') and "
-                  "(headers.has(b'Content-Length') ==> headers[b'Content-Length'] == old(headers)[b'Content-Length'])")],
+                  "(headers.has(b'Content-Length') ==> headers[b'Content-Length'] == old(headers)[b'Content-Length'])"),
+                 ('only-connection-close-added',
+                  "len(old(headers)) > 0 ==> (mapof(headers) == (store(mapof(old(headers)), b'Connection', b'close') if conn_close else mapof(old(headers))) and "
+                  "keys(headers) == (keys(old(headers)) if (not conn_close or old(headers).has(b'Connection')) else keys(old(headers)) + [b'Connection']))")],
         raises={},
         loops={0: LoopSpec(index='i', modifies=['pkt', 'k', 'v'],
                            inv=["pkt == join(b' ', line) + %s + hdrs(keys(headers), mapof(headers), i)" % CRLF])}))
     T += handler_contracts(reg)
+    OK_ = 'keys(old(headers)), len(old(headers))'
+    TE = "anylow(%s, b'transfer-encoding')" % OK_
+    HASCL = "anylow(%s, b'content-length')" % OK_
+    CLKEY = "lastlow(%s, b'content-length', b'Content-Length')" % OK_      # the field that carries the length
+    CLSAME = ("(headers.has(b'Content-Length') == old(headers).has(b'Content-Length') and "
+              "(headers.has(b'Content-Length') ==> headers[b'Content-Length'] == old(headers)[b'Content-Length']))")
+    CLINV = ["content_length == lastlow(keys(headers), i, b'content-length', b'Content-Length')",
+             "anylow(keys(headers), i, b'content-length') ==> headers.has(content_length)",
+             "not anylow(keys(headers), i, b'content-length') ==> content_length == b'Content-Length'",
+             "lower(content_length) == b'content-length'"]
+    # build_http_response leaves its loop with `break` at the first Transfer-Encoding field: the invariant
+    # speaks about the whole key sequence (justified by the lemma anylow_intro, instantiated below)
+    INV = ["has_transfer_encoding ==> anylow(keys(headers), len(headers), b'transfer-encoding')",
+           "not has_transfer_encoding ==> not anylow(keys(headers), i, b'transfer-encoding')"] + CLINV
+    ANYLOW_INTRO = ("forall('j', 0, len(headers), lower(keys(headers)[j]) == b'transfer-encoding' ==> "
+                    "anylow(keys(headers), len(headers), b'transfer-encoding'))")
+
+    def conn(m):
+        return "(store(%s, b'Connection', b'close') if conn_close else %s)" % (m, m)
+
+    def builder_posts(sets_cl, clv, extra_key=None):
+        """sets_cl: spec condition under which the builder writes the length field"""
+        m1 = "(store(mapof(old(headers)), %s, %s) if (%s) else mapof(old(headers)))" % (CLKEY, clv, sets_cl)
+        return [('framing-content-length-is-body-length', "(%s) ==> (headers.has(%s) and headers[%s] == (%s))" % (sets_cl, CLKEY, CLKEY, clv)),
+                ('canonical-name-when-none-given',
+                 "((%s) and not %s) ==> (headers.has(b'Content-Length') and headers[b'Content-Length'] == (%s))" % (sets_cl, HASCL, clv)),
+                ('otherwise-content-length-untouched', "not (%s) ==> %s" % (sets_cl, CLSAME)),
+                ('never-a-second-content-length', "%s ==> headers.has(b'Content-Length') == old(headers).has(b'Content-Length')" % HASCL)] + \
+               ([('other-fields-intact', "mapof(headers) == %s" % conn(m1))] if extra_key is None else [])
+
     CLV = "utf8enc(dec(len(body))) if (not isnone(body) and len(body) > 0) else b'0'"
     T.append(reg.contract(
         UT, 'build_http_response', result='bytes', modifies=['headers'],
         params={'status_code': 'int', 'protocol_version': 'bytes', 'reason': ('opt', 'bytes'), 'headers': HD,
                 'body': ('opt', 'bytes'), 'conn_close': 'bool', 'no_cl': 'bool'},
         requires=[('some-headers', 'not isnone(headers) and len(headers) > 0'), ('code', 'status_code >= 100 and status_code <= 599')],
-        ensures=[('framing-content-length-is-body-length',
-                  "(not no_cl and not exists('j', 0, len(old(headers)), lower(keys(old(headers))[j]) == b'transfer-encoding')) ==> "
-                  "(headers.has(b'Content-Length') and headers[b'Content-Length'] == (%s))" % CLV),
+        ensures=builder_posts("not no_cl and not %s" % TE, CLV) + [
+                 ('exact-bytes',
+                  "result == protocol_version + b' ' + utf8enc(dec(status_code)) + (b'' if (isnone(reason) or len(reason) == 0) else b' ' + reason) + "
+                  "%s + hdrs(%s, %s, len(%s)) + %s + (b'' if isnone(body) else body)" % (CRLF, K2, M2, K2, CRLF)),
                  ('status-line', "result.startswith(protocol_version + b' ' + utf8enc(dec(status_code)) + "
                                  "(b'' if (isnone(reason) or len(reason) == 0) else b' ' + reason) + %s)" % CRLF),
                  ('ends-with-body', "result.endswith(%s + (b'' if isnone(body) else body))" % CRLF)],
+        raises={}, uses=[ANYLOW_INTRO],
+        loops={0: LoopSpec(index='i', modifies=['has_transfer_encoding', 'content_length', 'k', '_'], inv=INV)}))
+    INV = ["has_transfer_encoding == anylow(keys(headers), i, b'transfer-encoding')"] + CLINV
+    T.append(reg.contract(
+        UT, 'build_http_request', result='bytes', modifies=['headers'],
+        params={'method': 'bytes', 'url': 'bytes', 'protocol_version': 'bytes', 'content_type': ('opt', 'bytes'), 'headers': HD,
+                'body': ('opt', 'bytes'), 'conn_close': 'bool', 'no_ua': 'bool'},
+        requires=[('some-headers', 'not isnone(headers) and len(headers) > 0'), ('no-content-type-arg', 'isnone(content_type)')],
+        ensures=builder_posts("not isnone(body) and len(body) > 0 and not %s" % TE, "utf8enc(dec(len(body)))", extra_key='User-Agent') + [
+                 ('exact-bytes',
+                  "result == method + b' ' + url + b' ' + protocol_version + "
+                  "%s + hdrs(%s, %s, len(%s)) + %s + (b'' if isnone(body) else body)" % (CRLF, K2, M2, K2, CRLF)),
+                 ('request-line', "result.startswith(method + b' ' + url + b' ' + protocol_version + %s)" % CRLF),
+                 ('ends-with-body', "result.endswith(%s + (b'' if isnone(body) else body))" % CRLF)],
         raises={},
-        loops={0: LoopSpec(index='i', modifies=['has_transfer_encoding', 'k', '_'],
-                           inv=["has_transfer_encoding == exists('j', 0, i, lower(keys(headers)[j]) == b'transfer-encoding')"])}))
+        loops={0: LoopSpec(index='i', modifies=['has_transfer_encoding', 'has_user_agent', 'content_length', 'k', '_'], inv=INV)}))
     return T
+
+
+def lemmas(reg, ex, prop='C06'):
+    """anylow_intro: a key with the wanted lower-case form at any index < n makes anylow(K, n, x) true
+    (induction on n) -- what the `break` in build_http_response needs."""
+    from pyvc import lemma
+    return lemma.induction_on_int(ex, prop, 'anylow_intro', {'K': ('list', 'bytes'), 'n': 'int', 'j': 'int', 'x': 'bytes'},
+                                  '(0 <= j and j < n and lower(K[j]) == x) ==> anylow(K, n, x)', on='n')
 
 
 def handler_contracts(reg):
@@ -65,9 +120,12 @@ def handler_contracts(reg):
     HH = 'proxy/http/handler.py'
     PF = 'proxy/http/parser/parser.py'
     handler.add_handler(reg)
+    had = dict(reg.classes['HttpParser']['fields']) if 'HttpParser' in reg.classes else {}
+    had_parse = reg.contracts.get('HttpParser.parse')
     proxyplugin.add_parser_class(reg)
     reg.spec_consts['BAD_REQUEST'] = from_py(BAD_REQUEST_RESPONSE_PKT)
     pf = dict(proxyplugin.PARSER_FIELDS)
+    pf.update(had)          # fields another module of the same registry already declared (C15 = C03 + C06)
     pf['_url'] = ('opt', ('obj', 'Url'))
     reg.klass('Url', py='proxy.http.url:Url', fields={
         'scheme': ('opt', 'bytes'), 'username': ('opt', 'bytes'), 'password': ('opt', 'bytes'),
@@ -195,3 +253,6 @@ def bounded_checks(reg, tier, seed):
     return [{'name': 'self-made responses vs independent parser (http.client)', 'bounded': True,
              'bound': 'builder argument grid (7 header sets x 4 bodies x flags), all canned packets, okResponse x 4 sizes x compress, redirects',
              'cases': n, 'violations': bad[:3]}]
+
+
+CROSSCHECK = ['build_http_header', 'build_http_pkt', 'build_http_response', 'build_http_request']
